@@ -5,7 +5,11 @@
 // blocked dispatch_sync caller and asynchronous items are already queued behind it, (0) serial queue suspended from outside, (1) serial queue suspended from its own item,
 // (2) concurrent queue suspended from a barrier item, (3) queue created inactive, suspended depth-1 times, activate last,
 // (7) queue created inactive, suspended depth times, activated first (nothing may start), then resumed depth times.
+// (9)/(10) scenarios (3)/(7) on a concurrent queue.
 // (6) hand-over of the last resume to another thread while the drainer leaves (see scenario_handover).
+// (8) a property setter that runs on the idle queue under its own temporary suspension (dispatch_set_target_queue /
+//     dispatch_queue_set_width on an active queue: _dispatch_barrier_trysync_or_async_f) while another thread nests suspensions into
+//     the side counter and takes part of them back; the setter is held just before it gives its suspension back (see scenario_setter).
 // usage: c06_suspend <seed> [handover trials]; output as harness/tr_lane.c ("Q ..." header, "ORACLE ok|VIOL", "E ..." events)
 #define _GNU_SOURCE
 #include <dispatch/dispatch.h>
@@ -38,9 +42,10 @@ static void *sync_suspender(void *c){ struct susp_arg *a=c; void (^blk)(void)=^{
   if(a->conc) dispatch_barrier_sync(a->q,blk); else dispatch_sync(a->q,blk); return NULL; }
 static void scenario(int kind, int depth, int qidx){
   atomic_int a_ran=0, s_ran=0, extra=0; __block atomic_int *ar=&a_ran, *sr=&s_ran, *ex=&extra;
-  dispatch_queue_attr_t attr = (kind==2||kind==5)? DISPATCH_QUEUE_CONCURRENT : DISPATCH_QUEUE_SERIAL; if(kind==3||kind==7) attr=dispatch_queue_attr_make_initially_inactive(attr);
+  int conc = (kind==2||kind==5||kind==9||kind==10); if(kind==9) kind=3; if(kind==10) kind=7;       // 9 / 10: scenarios 3 / 7 on a concurrent queue (the blocked caller is a non-barrier dispatch_sync)
+  dispatch_queue_attr_t attr = conc? DISPATCH_QUEUE_CONCURRENT : DISPATCH_QUEUE_SERIAL; if(kind==3||kind==7) attr=dispatch_queue_attr_make_initially_inactive(attr);
   dispatch_queue_t q=dispatch_queue_create("c06",attr); curq=qidx; CUR=q;
-  printf("Q %d width %d stateoff %ld\n", qidx, (kind==2||kind==5)?4094:1, (long)((char*)_dispatch_verif_queue_state_addr(q)-(char*)q));
+  printf("Q %d width %d stateoff %ld\n", qidx, conc?4094:1, (long)((char*)_dispatch_verif_queue_state_addr(q)-(char*)q));
   int need = depth;   // resumes (or resumes + activate) needed
   if(kind==0){ for(int i=0;i<depth;i++) dispatch_suspend(q); }
   else if(kind==1 || kind==2){ dispatch_semaphore_t done=dispatch_semaphore_create(0);
@@ -67,9 +72,11 @@ static void scenario(int kind, int depth, int qidx){
   else if(kind==7){ for(int i=0;i<depth;i++) dispatch_suspend(q); need=depth+1; }    // created inactive, suspended, ACTIVATED FIRST: the suspensions are still owed
   else { for(int i=0;i<depth-1;i++) dispatch_suspend(q); }
   // work that must not start yet
+  pthread_t th; struct sync_arg sa={q,&s_ran}; int sync_first = conc && (kind==3||kind==7);   // a non-barrier dispatch_sync arriving at the inactive queue while it is still empty
+  if(sync_first){ pthread_create(&th,NULL,sync_caller,&sa); usleep(3000); }
   dispatch_async(q,^{ atomic_store(ar,1); });
   if(kind==2) dispatch_async(q,^{ atomic_fetch_add(ex,1); });
-  pthread_t th; struct sync_arg sa={q,&s_ran}; pthread_create(&th,NULL,sync_caller,&sa);
+  if(!sync_first) pthread_create(&th,NULL,sync_caller,&sa);
   usleep(3000);
   for(int i=0;i<need;i++){
     if(a_ran||s_ran||extra) { fail("an item started while the queue was still suspended/inactive: kind/depth/resumes-issued",kind,depth,i); break; }
@@ -108,11 +115,49 @@ static void scenario_handover(int qidx, int trial){ dispatch_queue_t q=dispatch_
   _dispatch_verif_load_cb=0;
   if(!atomic_load(br)){ fail("pending item did not run within 3 s of the last resume, issued by another thread while the drainer was leaving the suspended queue: trial",trial,0,0); CUR=NULL; CURS=NULL; return; }
   dispatch_sync(q,^{}); CUR=NULL; CURS=NULL; dispatch_release(q); }
+// (8) the setter's temporary suspension against the side counter. dispatch_set_target_queue / dispatch_queue_set_width on an active
+// idle queue run their change under the barrier plus one suspension of their own and give that suspension back when the change is
+// made. While the setter thread is held just before that give-back (a preemption), this thread suspends the queue `depth` times and
+// resumes it until the inline count is 0 with the rest in the side counter (or `back` times), lets the setter finish, and issues the
+// remaining resumes: exactly `depth` resumes restart the queue, nothing starts before the last one.
+extern void (*_dispatch_verif_yield_cb)(const volatile void *addr, const char *func, int line);
+static volatile void *SETQ; static atomic_int set_in, set_go, set_held;
+static void ycb(const volatile void *addr, const char *func, int line){ (void)line;
+  if(addr!=SETQ || !SETQ || strcmp(func,"_dispatch_barrier_trysync_or_async_f_complete")) return;
+  if(atomic_exchange(&set_held,1)) return;            // hold once (a compare-and-swap loop comes here again after a failed attempt)
+  atomic_store(&set_in,1); for(int w=0; w<100000 && !atomic_load(&set_go); w++) usleep(100); }
+struct set_arg { dispatch_queue_t q, t; int width; };
+static void *setter(void *c){ struct set_arg *a=c; if(a->width) dispatch_queue_set_width(a->q,a->width); else dispatch_set_target_queue(a->q,a->t); return NULL; }
+static void scenario_setter(int qidx, int depth, int variant){ int conc=variant&1;
+  dispatch_queue_t q=dispatch_queue_create("c06s",conc?DISPATCH_QUEUE_CONCURRENT:DISPATCH_QUEUE_SERIAL), t=dispatch_queue_create("c06st",NULL); curq=qidx; CUR=q;
+  volatile uint64_t *st=(volatile uint64_t*)_dispatch_verif_queue_state_addr(q);
+  printf("Q %d width %d stateoff %ld\n", qidx, conc?4094:1, (long)((char*)st-(char*)q));
+  dispatch_sync(q,^{});
+  atomic_store(&set_in,0); atomic_store(&set_go,0); atomic_store(&set_held,0); SETQ=st; _dispatch_verif_yield_cb=ycb;
+  struct set_arg sa={q,t,(variant&2)?8:0}; if(sa.width && !conc) sa.width=0;
+  if(sa.width) CUR=NULL;      // the recorded words are decoded with the width announced above: a queue whose width changes is judged by the oracle only
+  pthread_t th; pthread_create(&th,NULL,setter,&sa);
+  for(int w=0; w<50000 && !atomic_load(&set_in); w++) usleep(100);
+  if(!atomic_load(&set_in)){ atomic_store(&set_go,1); pthread_join(th,NULL); _dispatch_verif_yield_cb=0; SETQ=NULL; CUR=NULL; return; }   // setter took the asynchronous path: nothing to observe
+  for(int i=0;i<depth;i++) dispatch_suspend(q);
+  int back=0; if(variant&4){ back=(int)(rnd()%(uint64_t)(depth+1)); for(int i=0;i<back;i++) dispatch_resume(q); }
+  else while(back<depth && ((*st>>58)&63)!=0){ dispatch_resume(q); back++; }     // inline count 0: everything that is left is in the side counter (or nothing is left)
+  atomic_store(&set_go,1); pthread_join(th,NULL); _dispatch_verif_yield_cb=0; SETQ=NULL;
+  atomic_int a_ran=0; atomic_int *ar=&a_ran; dispatch_async(q,^{ atomic_store(ar,1); });
+  usleep(2000);
+  for(int i=back;i<depth;i++){
+    if(a_ran){ fail("an item started on a queue with suspensions outstanding after a property setter ran on it: depth/resumed before the setter finished/resumes issued",depth,back,i); break; }
+    dispatch_resume(q); if(i>=depth-2) usleep(1500); }
+  if(!viol){ for(int w=0; w<3000 && !a_ran; w++) usleep(1000);
+    if(!a_ran){ int extra=0; while(!a_ran && extra<300){ dispatch_resume(q); extra++; for(int w=0; w<20 && !a_ran; w++) usleep(500); }
+      fail("a queue suspended N times and resumed N times did not restart after a property setter gave its own temporary suspension back while the inline count was in the side counter: N/resumed before the setter finished/extra resumes it took",depth,back,extra); } }
+  if(!viol){ dispatch_barrier_sync(q,^{}); CUR=NULL; dispatch_release(q); dispatch_release(t); } else CUR=NULL; }
 int main(int argc,char**argv){ uint64_t seed=argc>1?strtoull(argv[1],0,0):1; rs=seed; evs=calloc(MAXEV,sizeof *evs);
   _dispatch_verif_atomic_cb=cb;
   static const int depths[]={1,2,31,32,33,63,64,65,95,96,97,127,128,129,200}; int nd=(int)(sizeof depths/sizeof *depths); int qi=0, sc=0;
-  for(int k=0;k<8 && !viol;k++) for(int d=0; d<nd && !viol; d++){ if(k==6) continue; if(((seed+ (uint64_t)k*7 + (uint64_t)d)%3)==0 && depths[d]<96) continue; scenario(k,depths[d],qi++); sc++; }
+  for(int k=0;k<11 && !viol;k++) for(int d=0; d<nd && !viol; d++){ if(k==6||k==8) continue; if(((seed+ (uint64_t)k*7 + (uint64_t)d)%3)==0 && depths[d]<96 && !(k>=9 && d<2)) continue; scenario(k,depths[d],qi++); sc++; }
   for(int i=0;i<6 && !viol;i++){ scenario_external(qi++); sc++; }
+  { static const int sd[]={1,31,32,62,63,64,95,96,127,130}; for(int d=0; d<10 && !viol; d++) for(int v=0; v<8 && !viol; v++){ if((seed+(uint64_t)d+(uint64_t)v)%2 && sd[d]!=63) continue; scenario_setter(qi++,sd[d],v); sc++; } }
   { int nt=argc>2?atoi(argv[2]):60; for(int i=0;i<nt && !viol;i++){ scenario_handover(qi++,i+(int)(seed%7)); sc++; } }
   _dispatch_verif_atomic_cb=0;
   if(viol) printf("ORACLE VIOL seed=%llu %s\n",(unsigned long long)seed,vmsg); else printf("ORACLE ok items=%d events=%lu\n",sc,atomic_load(&nev));
